@@ -278,10 +278,13 @@ func (u *Unit) evalBinary(e *ast.BinaryExpr, st *State) Val {
 				g = not(l.T)
 			}
 			n := len(st.pc)
-			st.assume(g)
+			st.pc = append(st.pc, g)
 			r := u.evalExpr(e.Y, st)
 			// keep facts learned (they are guarded), drop the guard itself
-			learned := append([]string(nil), st.pc[n+1:]...)
+			var learned []string
+			if len(st.pc) > n+1 {
+				learned = append([]string(nil), st.pc[n+1:]...)
+			}
 			st.pc = st.pc[:n]
 			for _, f := range learned {
 				st.assume(implies(g, f))
